@@ -943,7 +943,9 @@ def policy(repo, tier):
                                   f"{root.q}: " + "; ".join(sorted({f"{e['how']} on {e['state']}" for (e, _f) in open_})[:4]) +
                                   (" -- not under a lock: two threads interleaving save / set / restore leave the other thread's wrapper installed" if open_ else "all under a lock"),
                                   rel, definite=False)
-            o["replay_hint"] = {"rel": rel, "patchers": [[rel, key[1]]] if O.is_context_manager(root) else [], "functions": helpers}
+            o["replay_hint"] = {"rel": rel, "patchers": [[rel, key[1]]] if O.is_context_manager(root) else [], "functions": helpers,
+                                # a save / set / restore section is broken by TWO context switches; the statements to aim at
+                                "two_switch": True, "lines": sorted({getattr(e["node"], "lineno", 0) for (e, _f) in by_root[key] if getattr(e["node"], "lineno", 0)})}
             obls.append(o)
     # H6: handles closed on all paths
     bad, n_sites = [], 0
